@@ -45,9 +45,10 @@ var hostilePool = []string{
 
 // Gen generates recipes.
 type Gen struct {
-	r       *rng
-	Hostile bool // strings from the hostile alphabet too
-	Tokens  bool // put a unique token into every string: Uq<n>z in unsafe channels, Sq<n>z in safe ones
+	r            *rng
+	Hostile      bool // strings from the hostile alphabet too
+	Tokens       bool // put a unique token into every string: Uq<n>z in unsafe channels, Sq<n>z in safe ones
+	OpErrorArrow bool
 	// QuoteSafe: some safe constants put their token between guillemets used as quotation marks
 	// (only for streams whose relation is not restricted to marker-free inputs)
 	QuoteSafe bool
@@ -260,6 +261,10 @@ func (g *Gen) Leaf(depth int) *R {
 	case 7:
 		return &R{Op: "pkgnew", S: []string{g.sU()}}
 	case 8:
+		if g.r.chance(35) {
+			// the same errno as received from a process on another platform
+			return &R{Op: "foreignerrno", I: []int64{errnos[g.r.intn(len(errnos))]}}
+		}
 		return &R{Op: "errno", I: []int64{errnos[g.r.intn(len(errnos))]}}
 	case 9:
 		return &R{Op: []string{"grpcstatus", "gogostatus"}[g.r.intn(2)], I: []int64{int64(1 + g.r.intn(16))}, S: []string{g.sU()}}
@@ -350,7 +355,7 @@ func (g *Gen) tags() []TagKV {
 // Wrapper puts one randomly chosen wrapper around kid.
 func (g *Gen) Wrapper(kid *R, depth int) *R {
 	g.Stats["wrapper"]++
-	n := 36
+	n := 37
 	if g.NoForeign {
 		n = 27
 	}
@@ -429,6 +434,24 @@ func (g *Gen) Wrapper(kid *R, depth int) *R {
 		return &R{Op: "linkerror", Kids: k1, S: []string{"link", "/a/" + g.pathWord(), "/b/" + g.pathWord()}}
 	case 31:
 		return &R{Op: "syscallerror", Kids: k1, S: []string{"read"}}
+	case 33:
+		// *net.OpError: no encoder of its own, a special-case printer
+		src, addr := "", ""
+		if g.r.chance(60) {
+			src = "10.0.0." + g.r.pick([]string{"1:80", "7:4433"})
+			if g.Tokens {
+				src += g.token(false)
+			}
+		}
+		// both a source and an address: only in the streams where the recorded finding about the
+		// " -> " of the special-case printer is accounted for (C09) or cannot show (C06)
+		if (src == "" || g.OpErrorArrow) && g.r.chance(70) {
+			addr = g.r.pick([]string{"[::1]:26257", "db.internal:5432", "/var/run/s.sock"})
+			if g.Tokens {
+				addr += g.token(false)
+			}
+		}
+		return &R{Op: "operror", Kids: k1, S: []string{g.r.pick([]string{"dial", "read", "write"}), g.r.pick([]string{"tcp", "udp", ""}), src, addr}}
 	case 32:
 		// fmt.Errorf with exactly one %w wrapping kid
 		f := []FP{{Kind: "lit", S: g.sU()}, {Kind: "lit", S: ": "}, {Kind: "err", Verb: "w", R: kid}}
